@@ -757,10 +757,32 @@ func (e *daemonEngine) collectEpoch(id string, members []int, epochNo int, old *
 			if strings.HasPrefix(facts, "transition_time") {
 				ep.ttDiffer = true
 			}
-			if facts == "members" {
+			if facts == "members" || facts == "public_key" {
+				// the completers qualified different sets of dealers (different member sets, or the same members on
+				// different polynomials). With messages that the scenario delays by amounts comparable to a phase of
+				// the key generation this is the known limit of the timed protocol; without such delays it is not
 				ep.membersDiffer = true
+				if e.lateMessages() {
+					facts += "-with-late-messages"
+				}
 			}
 			e.rec.Violate("C06", "groups-differ", facts, "beacon %s epoch %d: node%d and node%d hold different groups: %s", id, epochNo, refNode, i, d)
+			// groupDiff names the first field that differs; a different set of qualified dealers may hide behind it
+			if !strings.HasPrefix(facts, "members") && !strings.HasPrefix(facts, "public_key") {
+				q := ""
+				if len(ref.Nodes) != len(g.Nodes) {
+					q = "members"
+				} else if !ref.PublicKey.Equal(g.PublicKey) {
+					q = "public_key"
+				}
+				if q != "" {
+					ep.membersDiffer = true
+					if e.lateMessages() {
+						q += "-with-late-messages"
+					}
+					e.rec.Violate("C06", "groups-differ", q, "beacon %s epoch %d: node%d and node%d also differ in %s", id, epochNo, refNode, i, q)
+				}
+			}
 		}
 		// the share lies on the public polynomial
 		pub := share.NewPubPoly(cc.ref.KeyGroup, cc.ref.KeyGroup.Point().Base(), g.PublicKey.Coefficients)
@@ -814,6 +836,19 @@ func (e *daemonEngine) collectEpoch(id string, members []int, epochNo int, old *
 		}
 	}
 	return ep
+}
+
+// lateMessages: does the scenario delay messages by hundreds of milliseconds (slow links or a slow node)?
+func (e *daemonEngine) lateMessages() bool {
+	if e.sc.Net.SlowPct > 0 && e.sc.Net.SlowMs >= 200 {
+		return true
+	}
+	for _, a := range e.sc.Script {
+		if a.Kind == "slow" && a.A >= 200 {
+			return true
+		}
+	}
+	return false
 }
 
 func groupDiff(a, b *key.Group) string {
